@@ -782,6 +782,10 @@ func (r *runner) exec(op Op) (map[string]any, Outcome) {
 		if pr, ok := resp.(*ua.PublishResponse); ok && pr.ResponseHeader.ServiceResult == ua.StatusBadSessionIDInvalid {
 			return ev, Outcome{K: "publishnosession"}
 		}
+		if pr, ok := resp.(*ua.PublishResponse); ok && pr.ResponseHeader.ServiceResult == ua.StatusOK {
+			// the handler queued the request; a subscription worker of the session answered it in the meantime
+			return ev, Outcome{K: "publishqueued"}
+		}
 		return ev, Outcome{K: "error", Err: fmt.Sprintf("unexpected publish response %T", resp)}
 	case "svc":
 		mk, ok := svcReqs[op.Svc]
@@ -992,9 +996,19 @@ func main() {
 		r := rng.New(*seed)
 		s := startServer(defaultSec(*noSec)...)
 		emit(map[string]any{"t": "consts", "hassubtype": id.HasSubtype, "hastypedefinition": id.HasTypeDefinition})
+		if *mode == "c33" {
+			// namespace 0 as the running server holds it (oracle input)
+			var all []NodeJ
+			if nn, ok := s.srv.Namespaces()[0].(*server.NodeNameSpace); ok {
+				for _, k := range nn.VerifNodeKeys() {
+					all = append(all, dumpNode(nn.VerifNode(k)))
+				}
+			}
+			emit(map[string]any{"t": "space", "nodes": all})
+		}
 		for i := 0; i < *n; i++ {
 			h := generate(r, *mode, i, s)
-			s.runHistory(h, *mode == "c33")
+			s.runHistory(h, false)
 		}
 		emit(map[string]any{"t": "done"})
 	case "replay":
@@ -1008,7 +1022,7 @@ func main() {
 		}
 		s := startServer(defaultSec(*noSec)...)
 		for _, h := range hs {
-			s.runHistory(h, h.Mode == "c33")
+			s.runHistory(h, false)
 		}
 		emit(map[string]any{"t": "done"})
 	case "serve":
